@@ -84,7 +84,9 @@ ProgramsPart(k, c) ==
       [] c = 3 -> { <<Fn("fa", <<If1(Guard(9), <<RetS(7)>>)>> \o b \o <<RetS(8)>>), CallS("fa"), Log(92)>> : b \in Part(Depth, FALSE, k) }
       [] c = 4 -> { b \o s : b \in Part(Depth - 1, FALSE, k), s \in Small }
       [] c = 5 -> { <<Fn("fa", b), Fn("fb", s \o <<RetS(9)>>), CallS("fb"), CallS("fa"), CallS("fb")>> : b \in Part(Depth - 1, FALSE, k), s \in Small }
-PartIds == (0..11) \X (1..5)
+      \* control flow at global scope BEFORE and AFTER a function that itself contains control flow
+      [] c = 6 -> { s1 \o <<Fn("fa", s2 \o <<RetS(9)>>), CallS("fa")>> \o b : b \in Part(Depth - 1, FALSE, k), s1 \in Small, s2 \in Small }
+PartIds == (0..11) \X (1..6)
 \* (an operator with a parameter: TLC must not pre-compute the whole family as a constant)
 ProgramsAll(dummy) == UNION { ProgramsPart(pc[1], pc[2]) : pc \in PartIds }
 
